@@ -8,7 +8,12 @@ Ops     : set_target(t) for every target of the pool (a rotated+scaled, a reflec
           of the source and the source object itself), on the original or on any copy; copy() of any live
           object (the copy stays in the state and is re-checked after every later step);
           set_target(wrong number of points: n+1, n-1), set_target(other dimensionality, same n),
-          set_target(other dimensionality with the same number of coordinates).
+          set_target(other dimensionality with the same number of coordinates);
+          pseudoinverse() of any live object: the inverse JOINS the state (model: source = old target,
+          target = old source, same options) and is then retargeted / copied / inverted like any other.
+          Every step ends with the complete sequence of public queries on every live object (also when a
+          history is merely replayed), so an object is always queried, changed through its public API and
+          queried again - whatever an object memoises, or inherits through copy() / pseudoinverse(), is used.
 Oracle  : after every step every live object is observationally identical (exact) to
           cls(fresh source, fresh copy of its model target, **options) built from regenerated payload:
           class, h_matrix / TPS coefficients, source, target, options, image of probe points,
@@ -16,6 +21,11 @@ Oracle  : after every step every live object is observationally identical (exact
           its target / source hold exactly the coordinates that were passed; every object the caller passed
           (source, all pool targets, wrong-sized targets, kernel centres) is unchanged; wrong-sized targets
           raise ValueError and change nothing; copy() gives a distinct object of the same class.
+          An inverse of the homogeneous family is the inverted fit, not a fit (C04's subject): until its first
+          set_target only the clauses below are demanded of it; a TPS / PWA inverse is a new construction and
+          must equal the fresh build at once.  Every live object, always: aligned_source() == apply(source
+          points) and alignment_error() == ||target - apply(source points)|| (exact), source / target hold
+          exactly the coordinates of the model.
 GPA     : roots of kind "G": GeneralizedProcrustesAnalysis(sources) without a fixed target - every
           transforms[i] is exactly AlignmentSimilarity(sources[i], gpa.target, allow_mirror=...) and reports
           gpa.target as its target; the inputs are unchanged; each returned transform, retargeted once
@@ -256,13 +266,41 @@ class C08(Check):
             return CachedPWA(src, tgt)
         return getattr(mt, name)(src, tgt, **o)
 
-    def _fresh(self, root, tname, override=None, kern=None):
-        """cls(source, target, **options) from regenerated payload - shares nothing with the explored state."""
-        from menpo.shape import PointCloud
+    def _ref_trilist(self, root):
+        """triangulation every inverse of a PWA letter inherits: the explicit one, or the constructor's own."""
+        from menpo.shape import TriMesh
 
         pl = self._payload(root)
-        src = self._make_source(root, pl)
-        tgt = src if tname == "self" else PointCloud(pl["targets"][tname].copy())
+        if dict(root[2]).get("source") == "TriMesh":
+            return pl["trilist"]
+        if "delaunay" not in pl:
+            pl["delaunay"] = np.array(TriMesh(pl["S"].copy()).trilist, copy=True)
+        return pl["delaunay"]
+
+    def _pts(self, root, name):
+        pl = self._payload(root)
+        return pl["S"] if name in ("S", "self") else pl["targets"][name]
+
+    def _fresh(self, root, model, override=None, kern=None):
+        """cls(source, target, **options) from regenerated payload - shares nothing with the explored state.
+        model = (source name, target name[, fitted]); source 'S' is the root's source object, any other source
+        name is a pool target that became a source through pseudoinverse()."""
+        from menpo.shape import PointCloud, TriMesh
+
+        if isinstance(model, str):
+            model = ("S", model)
+        src_n, tgt_n = model[0], model[1]
+        pl = self._payload(root)
+        if src_n == "S":
+            src = self._make_source(root, pl)
+        elif pl["trilist"] is not None:
+            src = TriMesh(pl["targets"][src_n].copy(), self._ref_trilist(root).copy())
+        else:
+            src = PointCloud(pl["targets"][src_n].copy())
+        if tgt_n == "self":
+            tgt = src if src_n == "S" else PointCloud(pl["S"].copy())
+        else:
+            tgt = PointCloud(pl["targets"][tgt_n].copy())
         return self._construct(root, src, tgt, self._make_kernel(root, src, kern), override)
 
     # ------------------------------------------------------------------ state
@@ -291,9 +329,16 @@ class C08(Check):
             "passed": passed,
             "obs0": [(k, observe(v)) for k, v in passed],
             "objs": [al],
-            "model": [root[5]],
+            "model": [("S", root[5], True)],
+            "who": ["original"],
         }
+        self._touch(st)
         return st
+
+    def _touch(self, st):
+        """the complete sequence of public queries on every live object (part of every step, verified or not)."""
+        for al in st["objs"]:
+            self._full_obs(al)
 
     # the complete public observation of one alignment (fixed order of calls: CachedPWA memoises the last input)
     def _full_obs(self, al):
@@ -346,6 +391,7 @@ class C08(Check):
                 out.append(("set", j, tn))
             if n_obj < MAX_OBJS:
                 out.append(("copy", j))
+                out.append(("pinv", j))
             for k in BAD_KINDS:
                 if k in st["bad"]:
                     out.append(("bad", j, k))
@@ -356,6 +402,13 @@ class C08(Check):
         kind = op[0]
         if kind == "gpa":
             return self._gpa(st, op[1]) if verify else []
+        fails = self._apply(st, op, verify)
+        if not verify:
+            self._touch(st)
+        return fails
+
+    def _apply(self, st, op, verify):
+        kind = op[0]
         root = st["root"]
         letter = letter_name(root)
         j = op[1]
@@ -364,11 +417,16 @@ class C08(Check):
         if kind == "set":
             tn = op[2]
             al.set_target(st["pool"][tn])
-            changed = st["model"][j] != tn
-            st["model"][j] = tn
+            src_n, old_tn, was_fitted = st["model"][j]
+            changed = old_tn != tn
+            st["model"][j] = (src_n, tn, True)
             if verify:
                 self.note("set:%s" % ("new-target" if changed else "same-target-again"))
-                self.note("set-on:%s" % ("original" if j == 0 else "copy"))
+                self.note("set-on:%s" % st["who"][j])
+                if not was_fitted:
+                    self.note("set-on:inverted-fit")
+                if src_n != "S":
+                    self.note("set-on:object-whose-source-was-a-target")
                 if len(set(st["model"])) > 1:
                     self.note("copies:diverged")
                 fails.extend(self._verify_all(st, "set_target:" + letter))
@@ -383,8 +441,27 @@ class C08(Check):
                     fails.append(Failure("copy:" + letter, "copy-class", "copy() of %s is a %s" % (type(al).__name__, type(c).__name__)))
             st["objs"].append(c)
             st["model"].append(st["model"][j])
+            st["who"].append("copy")
             if verify:
+                self.note("copy-of:%s" % st["who"][j])
                 fails.extend(self._verify_all(st, "copy:" + letter))
+            return fails
+        if kind == "pinv":
+            inv = al.pseudoinverse()
+            src_n, tgt_n, _fitted = st["model"][j]
+            rebuilt = root[1] in ("ThinPlateSplines", "PythonPWA", "CachedPWA")  # these construct a new alignment
+            if verify:
+                self.note("pinv:%s" % ("new-construction" if rebuilt else "inverted-fit"))
+                self.note("pinv-of:%s" % st["who"][j])
+                if inv is al:
+                    fails.append(Failure("pseudoinverse:" + letter, "inverse-is-distinct-object", "pseudoinverse() returned its receiver"))
+                if type(inv) is not type(al):
+                    fails.append(Failure("pseudoinverse:" + letter, "inverse-class", "pseudoinverse() of %s is a %s" % (type(al).__name__, type(inv).__name__)))
+            st["objs"].append(inv)
+            st["model"].append(("S" if tgt_n == "self" else tgt_n, "self" if src_n == "S" else src_n, rebuilt))
+            st["who"].append("inverse")
+            if verify:
+                fails.extend(self._verify_all(st, "pseudoinverse:" + letter))
             return fails
         if kind == "bad":
             exc = None
@@ -414,16 +491,35 @@ class C08(Check):
         root = st["root"]
         pl = self._payload(root)
         fails = []
-        for k, (al, tn) in enumerate(zip(st["objs"], st["model"])):
-            who = "original" if k == 0 else "copy"
-            fresh = self._fresh(root, tn)
-            exp_t = pl["S"] if tn == "self" else pl["targets"][tn]
+        for k, (al, mod) in enumerate(zip(st["objs"], st["model"])):
+            who = st["who"][k]
+            tn = mod[1]
+            exp_t = self._pts(root, mod[1])
+            exp_s = self._pts(root, mod[0])
             got_t = np.asarray(al.target.points)
             if got_t.shape != exp_t.shape or not np.array_equal(got_t, exp_t):
                 fails.append(Failure(where, clause_prefix + "%s-target-is-the-one-set" % who, "object #%d: model target %r, target held differs (max abs %s)" % (k, tn, _maxabs(got_t, exp_t))))
             got_s = np.asarray(al.source.points)
-            if got_s.shape != pl["S"].shape or not np.array_equal(got_s, pl["S"]):
-                fails.append(Failure(where, clause_prefix + "%s-source-kept" % who, "object #%d: source differs from the one passed (max abs %s)" % (k, _maxabs(got_s, pl["S"]))))
+            if got_s.shape != exp_s.shape or not np.array_equal(got_s, exp_s):
+                fails.append(Failure(where, clause_prefix + "%s-source-kept" % who, "object #%d: source differs from the model's %r (max abs %s)" % (k, mod[0], _maxabs(got_s, exp_s))))
+            # self-consistency of the queries (whatever is memoised on the object or inherited from its parent)
+            mapped = np.asarray(al.apply(np.array(got_s, copy=True)))
+            got_a = np.asarray(al.aligned_source().points)
+            if got_a.shape != mapped.shape or not np.array_equal(got_a, mapped):
+                fails.append(Failure(where, clause_prefix + "%s-aligned-source-is-apply-of-source" % who, "object #%d %r: aligned_source() differs from apply(source.points) (max abs %s)" % (k, mod, _maxabs(got_a, mapped))))
+            if got_t.shape == mapped.shape:
+                err, exp_err = float(al.alignment_error()), float(np.linalg.norm(got_t - mapped))
+                if err != exp_err:
+                    fails.append(Failure(where, clause_prefix + "%s-alignment-error-is-distance-to-target" % who, "object #%d %r: alignment_error() %r, ||target - apply(source)|| %r" % (k, mod, err, exp_err)))
+            self.note("selfconsistency:%s" % who)
+            if not mod[2]:
+                # the inverted fit of the homogeneous family: no fresh build to compare with before its first set_target
+                self._full_obs(al)
+                self.note("inverted-fit:checked-without-fresh-build")
+                continue
+            fresh = self._fresh(root, mod)
+            if who == "inverse" or mod[0] != "S":
+                self.note("equals-fresh:%s" % ("inverse-or-its-copy"))
             if type(al) is not type(fresh):
                 fails.append(Failure(where, clause_prefix + "%s-class" % who, "object #%d is a %s, fresh build a %s" % (k, type(al).__name__, type(fresh).__name__)))
                 continue
@@ -433,7 +529,7 @@ class C08(Check):
                     Failure(
                         where,
                         clause_prefix + "%s-equals-fresh-build" % who,
-                        "object #%d (targets of live objects %r): fresh %s(source, %r) vs explored object: %s" % (k, st["model"], letter_name(root), tn, diff),
+                        "object #%d (models of live objects %r): fresh %s(%r, %r) vs explored object: %s" % (k, st["model"], letter_name(root), mod[0], tn, diff),
                     )
                 )
         now = [(k, observe(v)) for k, v in st["passed"]]
@@ -532,6 +628,20 @@ class C08(Check):
             "set-on:copy",
             "copies:diverged",
             "copy:ok",
+            "copy-of:inverse",
+            "pinv:inverted-fit",
+            "pinv:new-construction",
+            "pinv-of:original",
+            "pinv-of:copy",
+            "pinv-of:inverse",
+            "set-on:inverse",
+            "set-on:inverted-fit",
+            "set-on:object-whose-source-was-a-target",
+            "equals-fresh:inverse-or-its-copy",
+            "inverted-fit:checked-without-fresh-build",
+            "selfconsistency:original",
+            "selfconsistency:copy",
+            "selfconsistency:inverse",
             "bad:n+1:ValueError",
             "bad:n-1:ValueError",
             "bad:dims:ValueError",
@@ -553,8 +663,9 @@ class C08(Check):
 
     def rule(self):
         return (
-            "breadth-first over all sequences of set_target(pool target) / copy() / set_target(wrong-sized target) "
-            "applied to the original alignment or to any copy taken so far, from every (class, options, size, "
+            "breadth-first over all sequences of set_target(pool target) / copy() / pseudoinverse() / set_target(wrong-sized "
+            "target) applied to the original alignment or to any copy / inverse derived so far (derived objects join the "
+            "state and every step ends with all public queries on all live objects), from every (class, options, size, "
             "initial target) root; after every step every live object is compared exactly with a fresh construction "
             "from regenerated payload; states merge only if model, public observation and every reachable private "
             "buffer coincide; GPA roots compare every returned transform with the fresh alignment to gpa.target"
@@ -569,7 +680,7 @@ class C08(Check):
             "targets": len(TARGETS),
             "wrong_target_kinds": len(BAD_KINDS),
             "max_live_objects": MAX_OBJS,
-            "ops_per_live_object": len(TARGETS) + len(BAD_KINDS) + 1,
+            "ops_per_live_object": len(TARGETS) + len(BAD_KINDS) + 2,
             "n_points_2d": list(self._sizes(2)),
             "n_points_3d": list(self._sizes(3)),
         }
@@ -578,7 +689,7 @@ class C08(Check):
         return [
             "comparison with the fresh build is exact (bitwise) - constructor and re-fit run the same arithmetic",
             "sources obey the general-position guard of mc.letters (pairwise distance >= 0.8, 2-D triangle area >= 0.35); PWA sources are jittered convex layouts with an explicit triangulation",
-            "at most %d live objects (original + copies); sequences bounded by the depth of the tier" % MAX_OBJS,
+            "at most %d live objects (original + copies + inverses); sequences bounded by the depth of the tier" % MAX_OBJS,
             "the fresh construction itself is the reference the property names; its optimality is C07's subject",
             "a wrong-sized target must be refused with ValueError (DESIGN.md C08) and leave every observation unchanged",
             "GPA is run with target=None only (the property's clause); 2..4 shapes, three shape families",
